@@ -4,8 +4,12 @@ import re
 # A pattern to match the word "through" or equivalent symbol or
 # abbreviation. (Embedded into other regex patterns -- not to be used on
 # its own.)
+# (A period after the word is matched *if and only if* one is there --
+# rather than with an optional `\.?` -- because a period is also an
+# intervener on its own, and a repeated intervener that can take or
+# leave the same period makes a failing match try 2^n combinations.)
 through_regex = re.compile(
-    r'([\-–—]|th[rough]{3,6}\.?|thru\.?|to)', re.IGNORECASE)
+    r'([\-–—]|th[rough]{3,6}(?:\.|(?!\.))|thru(?:\.|(?!\.))|to)', re.IGNORECASE)
 
 
 # A pattern to be embedded within patterns to match elided lists.
